@@ -143,7 +143,7 @@ for p in props:
             "evidence_file": f"/verif/evidence/{pid}.json",
             "replay_cmd_template": f"./check {pid} --replay {{path}}",
             "engine": "mc",
-            "level_claimed": {"category": "model_checking", "text": text + " The alphabets grew during three seeding waves (DESIGN.md 10.6); the exact alphabet and bound of the current version is the 'rule' text in the evidence file, and DESIGN.md 10.4 tabulates it per property.", "design_ref": f"DESIGN.md {ref} and 10.4"},
+            "level_claimed": {"category": "model_checking", "text": text + " The alphabets and some expectations grew during five seeding waves and two follow-up rounds (DESIGN.md 10.6), so the numbers above are lower bounds; the exact alphabet and bound of the current version is the 'rule' text in the evidence file, and DESIGN.md 10.4 tabulates it per property.", "design_ref": f"DESIGN.md {ref} and 10.4"},
             "level_note": note,
             "technique": tech,
         })
